@@ -31,6 +31,12 @@ Theorem C06_allocation : forall sizes rooms, Housed sizes rooms ->
     (forall c, c < length sizes -> 0 < nth c sizes 0 -> alloc c < length rooms /\ nth c sizes 0 <= nth (alloc c) rooms 0) /\
     (forall c c', c < length sizes -> c' < length sizes -> 0 < nth c sizes 0 -> 0 < nth c' sizes 0 -> alloc c = alloc c' -> c = c').
 Proof. exact housed_allocation. Qed.
+(* ... and conversely: the rank-wise criterion is EXACTLY the existence of such an allocation (counting argument on the sorted lists) *)
+Theorem C06_housed_iff : forall sizes rooms, Housed sizes rooms <->
+  exists alloc : nat -> nat,
+    (forall c, c < length sizes -> 0 < nth c sizes 0 -> alloc c < length rooms /\ nth c sizes 0 <= nth (alloc c) rooms 0) /\
+    (forall c c', c < length sizes -> c' < length sizes -> 0 < nth c sizes 0 -> 0 < nth c' sizes 0 -> alloc c = alloc c' -> c = c').
+Proof. exact housed_iff_allocation. Qed.
 
 (* `desc` really is the descending sort: a permutation of its argument in non-increasing order *)
 Theorem C06_desc_is_sort : forall l, Permutation (desc l) l /\ forall i j, i <= j -> j < length l -> nth j (desc l) 0 <= nth i (desc l) 0.
@@ -50,8 +56,9 @@ Proof.
   intros H. apply housedb_spec in H. vm_compute in H. discriminate.
 Qed.
 
-Check C06_allocation. Check C06_node. Check C06. Check C06_desc_is_sort. Check C06_checker_sound.
+Check C06_allocation. Check C06_housed_iff. Check C06_node. Check C06. Check C06_desc_is_sort. Check C06_checker_sound.
 Print Assumptions C06_allocation.
+Print Assumptions C06_housed_iff.
 Print Assumptions C06_node.
 Print Assumptions C06.
 Print Assumptions C06_desc_is_sort.
